@@ -17,27 +17,28 @@ NOT_APPLICABLE = {
 TRUST = "Trusted: Kani 0.68 / CBMC 6.11 / CaDiCaL, rustc's MIR, the reference model in harness/src/spec.rs (xspec.rs, lk.rs) and, where listed, the std models of harness/src/stubs.rs."
 
 # properties whose checks have been run green on the unchanged tree (everything else is listed under not_applicable with the reason)
-READY = ["C06", "C07", "C11", "C14", "C15", "C17", "C18"]
+READY = ["C06", "C07", "C11", "C14", "C15", "C17", "C18"]  # extended below as checks go green
+READY += [x for x in open(__import__("os").path.join(__import__("os").path.dirname(__import__("os").path.abspath(__file__)), "ready.txt")).read().split()]
 
 CLAIMS = {
     "C01": {
-        "text": "Totality is decided as the absence of any reachable panic, arithmetic overflow, out-of-bounds access or unwinding-bound violation (= termination within the stated loop bounds) in the real parsers, getters and setters when every input byte is a solver variable: token-level language-identifier parser on 1..4 arbitrary subtags of 0..9 arbitrary bytes, byte-level from_bytes on all strings of <= 4 bytes, the extension dispatcher on arbitrary subtags, every extension-body parser and every extension getter/setter on arbitrary arguments. The solver found the unimplemented!() panic (now fixed) from a subtag of eight NUL bytes.",
+        "text": "Totality is decided as the absence of any reachable panic, arithmetic overflow, out-of-bounds access or unwinding-bound violation (= termination within the stated loop bounds) in the real code when every input byte is a solver variable: the token-level language-identifier parser (allow_extension symbolic), the extension dispatcher on an arbitrary subtag, the -u- and -x- body parsers on fully symbolic and length-profiled subtags, every extension getter/setter on arbitrary arguments (C10 harnesses), from_bytes on every string of <= 1 byte, and maximize on every (und, script?, region?). The -t- body parser, from_bytes on longer strings and the 7143-row table are thorough-tier. The solver found the unimplemented!() panic (now fixed) from a subtag of eight NUL bytes.",
         "note": TRUST,
     },
     "C02": {
-        "text": "The real token-level parser entry (LanguageIdentifier::try_from_iter, shared by from_bytes/FromStr/canonicalize) is compared inside one SAT query with an independent UTS #35 recogniser/canonicaliser on k fully symbolic subtags: acceptance is exact in both directions, the parsed fields equal the reference canonical form (case, sorted unique variants, und), and the error kind is InvalidLanguage iff the first subtag is not a language. The byte-level harness adds the split predicate and empty/leading/trailing separators on all strings of <= 4 bytes.",
+        "text": "The real token-level parser entry (LanguageIdentifier::try_from_iter, shared by from_bytes/FromStr/canonicalize) is compared inside one SAT query with an independent UTS #35 recogniser/canonicaliser on k fully symbolic subtags: acceptance is exact in both directions, the parsed fields equal the reference canonical form (case, sorted unique variants, und), and the error kind is InvalidLanguage iff the first subtag is not a language. The byte-level harnesses add the split predicate and empty/leading/trailing separators: strings of <= 1 byte in the quick tier, <= 4 bytes and separator frames in the thorough tier.",
         "note": TRUST,
     },
     "C03": {
-        "text": "The locale parser is decided compositionally along its own structure: (a) each extension-body parser (-u-, -t-, -x-) on length-profiled frames (lengths concrete from the boundary classes, every byte symbolic) must produce exactly the reference value and leave exactly the subtags the reference says cannot continue the body; (b) the dispatcher on a fully symbolic subtag must reject everything that is not a singleton t/u/x (or empty / other singleton, where the property allows either); (c) composition frames through the whole extension map check repeated singletons, ordering and that nothing is dropped.",
+        "text": "The locale parser is decided compositionally along its own structure: (a) each extension-body parser on length-profiled frames (lengths concrete from the boundary classes, every byte symbolic) must produce exactly the reference value (through the getters) and leave exactly the subtags the reference says cannot continue the body; (b) the dispatcher on a fully symbolic subtag must reject everything that is not a singleton t/u/x (or empty / other singleton, where the property allows either); (c) composition frames through the whole extension map check repeated singletons, ordering and that nothing is dropped. The quick tier decides (a) for -u- and -x- and (b); the -t- body and (c) are thorough-tier only.",
         "note": TRUST,
     },
     "C04": {
-        "text": "to_string() of symbolically constructed values (real Display + core::fmt executed by CBMC) is compared byte for byte with the reference canonical serialiser and re-checked by the strict canonical recogniser; canonicalize at token level equals the reference canonicalisation and is never longer than its input.",
+        "text": "to_string() of symbolically constructed values (real Display + core::fmt executed by CBMC) is compared byte for byte with the reference canonical serialiser and the model is re-checked by the strict canonical recogniser: language identifiers with 0..2 variants, every subtag type, -u- lists built in place by the public setters, parsed private tags; canonicalize at token level equals the reference canonicalisation and is never longer than its input. Keywords, -t- lists and whole Locales are thorough-tier.",
         "note": TRUST,
     },
     "C05": {
-        "text": "Round trip parse(to_string(x)) == x is executed symbolically end to end for every subtag type and for language identifiers, and compositionally for locales: the serialiser's token sequence is fed back through the real token-level parsers and must give an equal value, including the t-fields-then-u/x shape the serialiser emits.",
+        "text": "Round trip parse(to_string(x)) == x is executed symbolically end to end for every subtag type; for language identifiers the serialiser's own subtags are fed back through the real token-level parser and must give an equal value (C04 decides that Display is exactly their '-' join); canonicalize is idempotent on two fully symbolic subtags. Locale / ExtensionsMap round trips are not claimed as one composed statement (see level_note).",
         "note": TRUST,
     },
     "C06": {
@@ -48,16 +49,36 @@ CLAIMS = {
         "text": "Purely algebraic laws of the real maximize on every valid symbolic triple: given subtags kept, all three present afterwards, bool <=> found, false => unchanged, variants untouched; idempotence follows from 'all three present afterwards' plus the separately decided 'a full triple is a fixed point'.",
         "note": TRUST,
     },
+    "C08": {
+        "text": "The minimize laws are asserted on the real likelysubtags::minimize / maximize pair: the result maximizes back to the maximised original, uses only its subtags, has one of the three shapes language / language-region / language-script and is the first of them that maximizes back; minimizing twice and minimize-after-maximize agree with minimizing once; the LanguageIdentifier wrapper leaves variants alone and reports the change truthfully.",
+        "note": TRUST + " One minimize performs up to four maximize calls (ten binary searches, three of them in the 7143-row table), so the quick tier fixes the language to concrete representatives (zh, qaa) and keeps script and region fully symbolic; arbitrary languages are thorough-only.",
+    },
+    "C09": {
+        "text": "Metamorphic, no oracle: the same symbolic subtags are parsed twice by the real code - once as given, once under a symbolic letter-case mask, a permutation or a duplication - and the two outcomes must be both errors or equal values.",
+        "note": TRUST,
+    },
+    "C10": {
+        "text": "Every mutator and getter of each component is compared step by step with a sorted-array model on fully symbolic arguments: short histories from the default state, and for the two vector-backed sets a single operation from an arbitrary pre-state that satisfies the representation invariant (an inductive step: the post-state is shown to satisfy the invariant again, so histories of any length over states of <= 3 elements are covered). Error => unchanged and argument normalisation are part of every step.",
+        "note": TRUST + " The arbitrary pre-state is built through a cfg-guarded raw constructor (hook).",
+    },
+    "C19": {
+        "text": "The library's Serialize / Deserialize impls are run under the solver against a minimal capturing Serializer and one-value Deserializers defined in the harness: the serialised text equals the reference canonical string for every symbolic identifier, every non-string kind is rejected without panic, and visit_str agrees with FromStr on the listed strings.",
+        "note": TRUST + " serde's trait plumbing is compiled as is; serde_json is outside.",
+    },
+    "C20": {
+        "text": "The exact-reference harnesses of C15, C02, C04, C11, C12, C10, C03, C13 are rebuilt through the facade crates under different feature sets; each verifies against the same feature-independent reference, hence the configurations agree with each other on every input within the harness bounds.",
+        "note": TRUST,
+    },
     "C11": {
         "text": "matches() of the real code equals the field-wise wildcard formula for every pair of symbolic identifiers (any valid language or und, optional script, optional region, 0..2 variants per side) and all four flag pairs; the derived laws (equality without flags, symmetry with swapped flags, reflexivity, monotonicity) are asserted on the real function as well; Language::matches separately.",
         "note": TRUST,
     },
     "C12": {
-        "text": "==, cmp, partial_cmp and Hash of LanguageIdentifier are compared with a field-by-field reference (absent first) on symbolic pairs and triples; x == y iff to_string equal (real Display); comparison with &str iff the string is the canonical text, for every ASCII string of <= 16 bytes.",
+        "text": "==, cmp, partial_cmp and Hash of LanguageIdentifier are compared with a field-by-field reference (absent first) on symbolic pairs and triples; x == y iff to_string equal (real Display); comparison with &str iff the string is the canonical text, for every ASCII string of <= 16 bytes; construction routes to the same logical value (set_variants(&[]) / clear_variants / from_parts(.., &[]) / never set; attribute or private tag added then removed vs never added) are ==, hash equally and compare Equal.",
         "note": TRUST + " Hash is decided for a fixed rotate-xor hasher with a write counter, defined in the harness.",
     },
     "C13": {
-        "text": "Both token-level entries are run on the same fully symbolic subtags: whenever LanguageIdentifier accepts, Locale accepts with an identical id and no extensions; conversions LanguageIdentifier <-> Locale and AsRef are identities on symbolic values.",
+        "text": "Both token-level entries are run on the same fully symbolic subtags: whenever LanguageIdentifier accepts, Locale's entry accepts with an identical id and nothing left for the extension parser (directly on 1..2 subtags; on 3 subtags decomposed through the reference: real permissive entry == reference permissive parse, a lemma about the reference alone, and C02 for the strict entry); the id of a locale equals the strict parse of the consumed prefix (same decomposition); conversions LanguageIdentifier <-> Locale and AsRef are identities on symbolic values.",
         "note": TRUST,
     },
     "C14": {
